@@ -96,6 +96,18 @@ def check(run):
         model = [float(Fr(x)) for x in a]
         if any(not close(g, m, 1e-12, 1e-12) for g, m in zip(got, model)):
             run.tie_broken("correspondence", "Atsim.tableReader vs TableReader", "file %r: impl %s model %s" % (txt[:200], got[:6], model[:6]))
+    # a data file that holds comments and blank lines only (no rows): every x lies outside the (empty) range, so the reader returns 0 everywhere
+    for txt in ("", "# nothing yet\n\n   \n# x y\n", "\n"):
+        run.case(key=("reader-empty", txt), kind="tablereader/no-rows")
+        try:
+            tr = ap.TableReader(io.StringIO(txt))
+            got = [tr(q) for q in (-1.0, 0.0, 2.5)]
+        except Exception as e:
+            run.fail("tablereader-value", "TableReader on a file without data rows (%r): %s: %s; every x is outside the data range, so the value is 0" % (txt, type(e).__name__, e), dict(file_text=txt))
+            break
+        if got != [0.0, 0.0, 0.0]:
+            run.fail("tablereader-value", "TableReader on a file without data rows returns %s, expected 0 everywhere" % (got,), dict(file_text=txt))
+            break
     # ---- (b) table forms ----------------------------------------------------------------------------------------------------------
     nb = 0
     for i in range(run.n(60, 1200)):
